@@ -221,6 +221,7 @@ func cmdCheck(args []string) int {
 	byBackend := map[string]int{}
 	var sumT, maxT float64
 	slow := []string{}
+	unreachableNew := []string{}
 	covers, coversSat := 0, 0
 	stubSet := map[string]bool{}
 	abstractedAll := map[string]bool{}
@@ -248,6 +249,11 @@ func cmdCheck(args []string) int {
 				covers++
 				if o.Status == "sat" {
 					coversSat++
+				}
+				if o.Status == "unsat" && strings.Contains(o.Name, "#cover:return-reachable:") && !lock[o.Name] {
+					// a return added since the lock was written and excluded by the contract (defensive code): noted, not alarmed
+					unreachableNew = append(unreachableNew, o.Name)
+					continue
 				}
 				if o.Status == "unsat" {
 					fails = append(fails, fail{name: o.Name, reason: "vacuity guard failed: the formula that must be satisfiable is unsatisfiable (contradictory precondition/invariant or unreachable exit)", o: o, fr: r})
@@ -516,6 +522,10 @@ func cmdLock(args []string) int {
 			}
 			for _, o := range r.VC.obls {
 				if o.Cover {
+					// a return statement that was reachable when the lock was written must stay reachable
+					if strings.Contains(o.Name, "#cover:return-reachable:") && o.Status == "sat" {
+						lines = append(lines, id+"\t"+o.Name)
+					}
 					continue
 				}
 				if !oblOK(o) {
